@@ -168,10 +168,10 @@ class ManagedFilter {
     const double max_dt = ([outputTime](const State& state) {
       static_assert(
           !std::is_same_v<typename Impl::Tag::ControlT, std::false_type>);
-      if (state.currentTime >= outputTime) {
-        return Impl::Tag::max_dt_sec;
+      if (state.currentTime > outputTime) {
+        return -Impl::Tag::max_dt_sec;
       }
-      return -Impl::Tag::max_dt_sec;
+      return Impl::Tag::max_dt_sec;
     })(_state);
 
     typename Impl::Tag::StateAndVarianceT state = _state.state;
@@ -204,10 +204,10 @@ class ManagedFilter {
     static_assert(
         std::is_same_v<typename Impl::Tag::ControlT, std::false_type>);
     const double max_dt = ([outputTime](const State& state) {
-      if (state.currentTime >= outputTime) {
-        return Impl::Tag::max_dt_sec;
+      if (state.currentTime > outputTime) {
+        return -Impl::Tag::max_dt_sec;
       }
-      return -Impl::Tag::max_dt_sec;
+      return Impl::Tag::max_dt_sec;
     })(_state);
 
     typename Impl::Tag::StateAndVarianceT state = _state.state;
